@@ -404,6 +404,9 @@ func c14FileCells() []*scen.Cell {
 	cells = append(cells, &scen.Cell{ID: "c14e_unknown-flag", Family: "C14e-files", Files: map[string]string{"setup.go": base + "type Convergen interface {\n\tC(*S) *D\n}\n"}, Args: []string{"-nosuchflag", "setup.go"}, Meta: c14Meta{Part: "e", Arg: "unknown-flag"}})
 	cells = append(cells, &scen.Cell{ID: "c14e_out-is-input", Family: "C14e-files", Files: map[string]string{"setup.go": base + "type Convergen interface {\n\tC(*S) *D\n}\n"}, Args: []string{"-out", "setup.go", "setup.go"}, Meta: c14Meta{Part: "e", Arg: "out-is-input"}})
 	cells = append(cells, &scen.Cell{ID: "c14e_out-is-input-dry", Family: "C14e-files", Files: map[string]string{"setup.go": base + "type Convergen interface {\n\tC(*S) *D\n}\n"}, Args: []string{"-dry", "-out", "./setup.go", "setup.go"}, Meta: c14Meta{Part: "e", Arg: "out-is-input"}})
+	cells = append(cells, &scen.Cell{ID: "c14e_cgo", Family: "C14e-files", Files: map[string]string{"setup.go": "//go:build convergen\n\npackage x\n\n// #include <stdlib.h>\nimport \"C\"\n\ntype S struct{ A int }\n\ntype D struct{ A int }\n\ntype Convergen interface {\n\tC(*S) *D\n}\n\nfunc Abs(i int) int { return int(C.abs(C.int(i))) }\n"}, Meta: c14Meta{Part: "e", Arg: "cgo"}})
+	cells = append(cells, &scen.Cell{ID: "c14e_generate-trailing", Family: "C14e-files", Files: map[string]string{"setup.go": base + "type Convergen interface {\n\tC(*S) *D\n} //go:generate echo hello\n"}, Meta: c14Meta{Part: "e", Arg: "generate-trailing", Methods: []string{"C"}}})
+	cells = append(cells, &scen.Cell{ID: "c14e_generate-on-group", Family: "C14e-files", Files: map[string]string{"setup.go": base + "//go:generate echo hello\ntype (\n\t// :convergen\n\tConv interface {\n\t\tC(*S) *D\n\t}\n)\n"}, Meta: c14Meta{Part: "e", Arg: "generate-on-group"}})
 	cells = append(cells, &scen.Cell{ID: "c14e_no-args", Family: "C14e-files", Files: map[string]string{"setup.go": base}, Args: []string{}, Meta: c14Meta{Part: "e", Arg: "no-args"}})
 	return cells
 }
